@@ -250,6 +250,9 @@ def _relabel():
             return st
         nm, ref = pick_dim(w, rng, a)
         labs = plain_labels(a.axes[nm])
+        if labs == [] and how in ("axvalues", "attr", "set_axis_list", "axes_setitem"):
+            # labels for an axis that has none: must be refused (or at least leave a well-formed array)
+            return {"a": a_id, "how": how, "axis": ref, "dim": nm, "new": [rng.choice([5, 2.5, "b"])], "illfit": "length"}
         if labs is None or not labs:
             return None
         st = {"a": a_id, "how": how, "axis": ref, "dim": nm}
@@ -357,6 +360,8 @@ def _meta_write():
             if a.ndim == 0:
                 return None
             st["axis"] = pick_dim(w, rng, a)[1]
+        if how == "dict" and rng.random() < 0.1:
+            st["member_key"] = rng.choice(["dims", "labels"])
         return st
 
     def run(w, s):
@@ -367,8 +372,17 @@ def _meta_write():
             if nm in a.dims or hasattr(type(a), nm):
                 raise Skip("name")
             setattr(a, nm, val)
+        elif how == "dict" and s.get("member_key") and a.ndim:
+            # a metadata entry named like a writable property of the class, holding something that property would accept
+            if s["member_key"] == "dims":
+                a.attrs["dims"] = [("m%d" % i) for i in range(a.ndim)]
+            else:
+                a.attrs["labels"] = [list(range(100, 100 + n)) for n in a.shape]
+            w.count("c15:meta_key_named_like_property")
         elif how == "dict":
             a.attrs[nm] = val
+        elif how == "dict" and False:
+            pass
         elif how == "npnested":
             # NumPy objects inside a mutable metadata value
             a.attrs[nm] = {"k": np.float32(1.5), "l": np.array([1, 2])} if len(nm) % 2 else [np.int64(3), np.array([0.5, 2.0])]
